@@ -170,7 +170,9 @@ def _run_chunk_forked(cid, seed, config, start, stop, digest_upto):
 
 def _run_chunk_here(cid, seed, config, start, stop, digest_upto):
     check = _CHECK or load_check(cid)
-    _limit_address_space()
+    # (a check whose workload asks for absurd sizes on purpose may settle
+    # for less: the refusal comes sooner)
+    _limit_address_space(getattr(check, "MEM_GB", None))
     # if a run wedges in C code (no signal delivery) dump stacks and die:
     # re-armed for every run, well beyond the allowance of a run (which
     # ends, by SIGALRM, in a note or in a progress violation)
@@ -289,12 +291,12 @@ def _plan(check, tier):
     return list(check.CONFIGS[tier])
 
 
-def _limit_address_space():
+def _limit_address_space(gb=None):
     """Failing allocations are part of the fault model, and a run that asks
     for 10^20 variables must meet one long before the machine does."""
     try:
         import resource
-        gb = float(os.environ.get("VERIF_MEM_GB", "6"))
+        gb = float(os.environ.get("VERIF_MEM_GB", gb or "6"))
         soft, hard = resource.getrlimit(resource.RLIMIT_AS)
         want = int(gb * 2 ** 30)
         if hard != resource.RLIM_INFINITY:
